@@ -798,3 +798,31 @@ SPECS += [
     ("C20", "dots-scan-without-a-bound-in-the-name-finder", "rope/base/evaluate.py", _unbound("ScopeNameFinder._find_module"), ["R20.18"]),
     ("C09", "dots-scan-without-a-bound-in-the-name-finder", "rope/base/evaluate.py", _unbound("ScopeNameFinder._find_module"), ["R09.13"]),
 ]
+
+# clamp to the last index (fix c90d787)
+SPECS += [
+    ("C20", "clamp-to-the-length-then-index", "rope/base/worder.py",
+     replace_expr_where("_RealFinder.is_from_aliased", _is("len(self.code) - 1"), _expr("len(self.code)")), ["R20.19"]),
+    ("C09", "clamp-to-the-length-then-index-import", "rope/base/worder.py",
+     replace_expr_where("_RealFinder.is_import_statement_aliased_module", _is("len(self.code) - 1"), _expr("len(self.code)")), ["R09.14"]),
+]
+
+# the file follows its own name only (fix 2a860bf)
+def _module_whatever_the_word(tree):
+    f = find_func(tree, "Rename._is_renaming_a_module")
+    if f is None:
+        return False
+    for i, st in enumerate(f.body):
+        if isinstance(st, ast.Return) and isinstance(st.value, ast.Compare) and "old_name" in ast.unparse(st.value):
+            f.body[i] = ast.copy_location(ast.Return(value=ast.Constant(value=True)), st)
+            return True
+    return False
+
+
+SPECS += [
+    ("C01", "file-moved-for-any-name-bound-to-the-module", "rope/refactor/rename.py", _module_whatever_the_word, ["R01.23"]),
+    ("C01", "extension-removed-with-rstrip", "rope/refactor/rename.py",
+     replace_expr_where("Rename._is_renaming_a_module", _is("resource.name[:-3]"), _expr("resource.name.rstrip('.py')")), ["R01.24"]),
+    ("C05", "extension-removed-with-rstrip", "rope/refactor/rename.py",
+     replace_expr_where("Rename._is_renaming_a_module", _is("resource.name[:-3]"), _expr("resource.name.rstrip('.py')")), ["R05.23"]),
+]
